@@ -113,6 +113,21 @@ func notePanic(slot *atomic.Value) {
 	}
 }
 
+// allStacks: goroutine dump for the watchdog report (tells a deadlock from a starved round)
+func allStacks() string {
+	buf := make([]byte, 1<<17)
+	return string(buf[:runtime.Stack(buf, true)])
+}
+
+// slowRound: a round that needed more than 20 s but finished (not a violation; kept in the evidence)
+func slowRound(w *vhlib.Writer, detail map[string]interface{}) {
+	l, _ := w.Notes["slow_rounds"].([]interface{})
+	if len(l) < 3 {
+		l = append(l, detail)
+	}
+	w.Notes["slow_rounds"] = l
+}
+
 func waitStart(start *int32) {
 	for atomic.LoadInt32(start) == 0 {
 		runtime.Gosched()
@@ -442,13 +457,21 @@ func concSection(w *vhlib.Writer, o vhlib.Opts, rng *vhlib.Rng, rounds int, hot 
 		select {
 		case r = <-done:
 		case <-time.After(20 * time.Second):
-			stop()
-			what := "skipmap"
-			if isSet {
-				what = "skipset"
+			// slow: take a goroutine dump, then allow 40 s more (a starved round on a loaded machine
+			// finishes; a deadlock or livelock does not)
+			dump := allStacks()
+			select {
+			case r = <-done:
+				slowRound(w, map[string]interface{}{"config": c, "round": i, "goroutines_at_20s": dump})
+			case <-time.After(40 * time.Second):
+				stop()
+				what := "skipmap"
+				if isSet {
+					what = "skipset"
+				}
+				w.Violation("concurrent "+what, "round did not finish within 60 s (deadlock or livelock)", map[string]interface{}{"config": c, "round": i, "seed": o.Seed, "goroutines": allStacks(), "goroutines_at_20s": dump})
+				return
 			}
-			w.Violation("concurrent "+what, "round did not finish within 20 s (deadlock or livelock)", map[string]interface{}{"config": c, "round": i, "seed": o.Seed})
-			return
 		}
 		stop()
 		if r.crashed != "" {
